@@ -1,3 +1,4 @@
+import Mqtt5V.Proofs.PubSend
 import Mqtt5V.Proofs.Sender
 import Mqtt5V.Proofs.Replies
 import Mqtt5V.Props.C11
@@ -67,5 +68,30 @@ theorem write_completion_finishes_each_once (s : S) (b : List SReq) (h : s.infli
         split
         · intro he; cases he
         · intro he; simp at he; exact ⟨_, he⟩
+
+
+/-! ## the publish operation (`publish_send_op`, Model/PubSend.lean, tied by the H-pubsend lock-step) -/
+section PubSendOp
+open Mqtt5V.Proofs.PubSend
+
+/-- **exactly-once completion, identifier released exactly once, nothing afterwards**: after the handler ran no further action
+of the operation exists -/
+theorem nothing_after_completion (qos2 : Bool) (is : List Model.PubSend.In) (l1 l2 : List Model.PubSend.Act) (c : Model.PubSend.Act) (hc : isCompletion c = true)
+    (h : trace qos2 is = l1 ++ c :: l2) : l2 = [] := by
+  have hr := rules_hold qos2 is
+  rw [h, feedAll_append] at hr
+  simp only [Mon.feedAll] at hr
+  cases l2 with
+  | nil => rfl
+  | cons a r =>
+    exfalso
+    simp only [Mon.feedAll] at hr
+    have hco := feed_completion_completed qos2 (({} : Mon).feedAll qos2 l1) c hc
+    have hb := feed_after_completed_bad qos2 _ hco a
+    rw [bad_sticky qos2 r _ hb] at hr
+    cases hr
+
+
+end PubSendOp
 
 end Mqtt5V.Props.C05
